@@ -13,7 +13,7 @@
 use crate::c01::{self, CItem, PackSpec, Src};
 use crate::out::Ctx;
 use crate::rng::Rng;
-use crate::util::{Comp, Hint};
+use crate::util::{self, Comp, Hint};
 use jubako as jbk;
 use std::sync::{Arc, Mutex};
 
@@ -117,7 +117,9 @@ pub fn run(ctx: &mut Ctx) {
         let perturb = Arc::new(Perturb { rng: Mutex::new(crng.fork(77)), events: Mutex::new(vec![]), max_us: if ctx.quick() { 1500 } else { 4000 } });
         set_cpus(cpus);
         let t0 = std::time::Instant::now();
+        let wd = util::watchdog(if ctx.quick() { 240 } else { 600 }, format!("creation + read back of case {} ({} workers, ~{} clusters)", case, workers, want_clusters));
         let built = c01::run_one(ctx, case, &spec, &mut crng, perturb.clone());
+        drop(wd);
         let dt = t0.elapsed();
         set_cpus(total_cpus);
         if dt.as_secs() > 300 {
